@@ -158,3 +158,245 @@ Proof.
   - specialize (H O s eq_refl). simpl in H. rewrite N.add_0_r in H. exact H.
   - apply IH. intros k s' Hk. specialize (H (S k) s' Hk). rewrite <- H. f_equal. f_equal. lia.
 Qed.
+
+(* ------------------------------------------------------------------ sortIDs *)
+Lemma src_leb_trans : Transitive (fun x y : idsrc => is_true (id_leq (fst x) (fst y))).
+Proof.
+  intros x y z H1 H2. unfold is_true in *. rewrite id_leq_spec in *. eapply ile_trans; eauto.
+Qed.
+Lemma src_leb_refl : forall x : idsrc, is_true (id_leq (fst x) (fst x)).
+Proof. intros x. unfold is_true. rewrite id_leq_spec. apply ile_refl. Qed.
+
+Lemma ss_hd : forall (A : Type) (R : A -> A -> Prop) (d : A) l, StronglySorted R l -> (forall a, R a a) ->
+  forall x, In x l -> R (hd d l) x.
+Proof.
+  intros A R d l H Hr x Hx. destruct l as [|a l]; [contradiction|]. simpl.
+  inversion H; subst. destruct Hx as [->|Hx]; [apply Hr|]. rewrite Forall_forall in H3. apply H3; exact Hx.
+Qed.
+Lemma ss_last : forall (A : Type) (R : A -> A -> Prop) (d : A) l, StronglySorted R l -> (forall a, R a a) ->
+  forall x, In x l -> R x (last l d).
+Proof.
+  intros A R d l H Hr. induction H as [|a l Hs IH Hf]; intros x Hx; [contradiction|].
+  destruct l as [|b l]; [destruct Hx as [->|[]]; apply Hr|].
+  change (last (a :: b :: l) d) with (last (b :: l) d).
+  destruct Hx as [->|Hx]; [|apply IH; exact Hx].
+  rewrite Forall_forall in Hf. apply Hf.
+  clear. revert b. induction l as [|c l IH]; intros b; [left; reflexivity|].
+  change (last (b :: c :: l) d) with (last (c :: l) d). right. apply IH.
+Qed.
+Lemma last_rev : forall (A : Type) (d : A) u, last (rev u) d = hd d u.
+Proof. intros A d [|x u]; [reflexivity|]. simpl. apply last_last. Qed.
+Lemma hd_rev : forall (A : Type) (d : A) t, hd d (rev t) = last t d.
+Proof. intros A d t. rewrite <- (rev_involutive t) at 2. rewrite last_rev. reflexivity. Qed.
+
+Lemma id_leq_mid : forall a b, id_leq a b = true -> fst a <= fst b.
+Proof. intros a b H. apply id_leq_spec in H. unfold ile in H. lia. Qed.
+
+Lemma last_in : forall (A : Type) (d : A) l, l <> [] -> In (last l d) l.
+Proof.
+  induction l as [|a l IH]; intros H; [congruence|]. destruct l as [|b l]; [left; reflexivity|].
+  change (last (a :: b :: l) d) with (last (b :: l) d). right. apply IH. congruence.
+Qed.
+
+Lemma sort_ids_spec : forall ids s lo hi, ids <> [] -> sort_ids ids = (s, lo, hi) ->
+  Permutation ids s /\ (forall x, In x s -> lo <= fst (fst x) /\ fst (fst x) <= hi) /\
+  exists y, In y s /\ hi = fst (fst y).
+Proof.
+  intros ids s lo hi Hne H. unfold sort_ids in H. cbv zeta in H.
+  pose proof (SrcSort.Permuted_sort ids) as Hp.
+  pose proof (SrcSort.StronglySorted_sort ids src_leb_trans) as Hs.
+  set (t := SrcSort.sort ids) in *. set (d := ((0, 0), 0) : idsrc) in *.
+  assert (Hb : forall x, In x t -> fst (fst (hd d t)) <= fst (fst x) /\ fst (fst x) <= fst (fst (last t d))).
+  { intros x Hx. split; apply id_leq_mid.
+    - apply (ss_hd _ _ d t Hs src_leb_refl x Hx).
+    - apply (ss_last _ _ d t Hs src_leb_refl x Hx). }
+  match type of H with (if ?c then _ else _) = _ => destruct c end; injection H as E1 E2 E3; rewrite <- E1, <- E2, <- E3; clear E1 E2 E3.
+  - split; [exact Hp|]. split; [exact Hb|]. exists (last t d). split; [|reflexivity].
+    apply last_in. intros E. rewrite E in Hp. apply Permutation_sym, Permutation_nil in Hp. contradiction.
+  - split; [rewrite <- Permutation_rev; exact Hp|]. split.
+    + intros x Hx. rewrite last_rev, hd_rev. apply Hb. apply in_rev. exact Hx.
+    + exists (last t d). rewrite hd_rev. split; [|reflexivity]. apply -> in_rev.
+      apply last_in. intros E. rewrite E in Hp. apply Permutation_sym, Permutation_nil in Hp. contradiction.
+Qed.
+
+(* ------------------------------------------------------------------ groupIDsByFraction *)
+Lemma group_sound : forall cand s c buf, In (c, buf) (group cand s) ->
+  In c cand /\ forall x, In x buf -> exists src, In src s /\ fst src = x /\ sel (cf c) src = true.
+Proof.
+  induction cand as [|c0 r IH]; intros s c buf H; [contradiction|].
+  simpl in H.
+  assert (Hrest : In (c, buf) (group r (filter (keep (cf c0)) s)) ->
+                  In c (c0 :: r) /\ forall x, In x buf -> exists src, In src s /\ fst src = x /\ sel (cf c) src = true).
+  { intros H1. apply IH in H1. destruct H1 as [H1 H2]. split; [right; exact H1|].
+    intros x Hx. destruct (H2 x Hx) as [src [Hs [He Hsel]]]. exists src. apply filter_In in Hs. tauto. }
+  destruct (map fst (filter (sel (cf c0)) s)) as [|b0 bs] eqn:E; [apply Hrest; exact H|].
+  destruct H as [H|H]; [|apply Hrest; exact H].
+  inversion H; subst. split; [left; reflexivity|].
+  intros x Hx. rewrite <- E in Hx. apply in_map_iff in Hx. destruct Hx as [src [He Hs]].
+  apply filter_In in Hs. exists src. tauto.
+Qed.
+
+Lemma sel_name : forall f s, sel f s = true -> snd s = 0 \/ snd s = f_name f.
+Proof.
+  intros f s H. unfold sel in H. destruct (snd s =? 0) eqn:E; [left; apply N.eqb_eq; exact E|].
+  apply andb_true_iff in H. destruct H as [H _]. right. apply N.eqb_eq; exact H.
+Qed.
+
+Lemma group_complete : forall cand s c src,
+  NoDup (map (fun c => f_name (cf c)) cand) -> In c cand -> In src s -> sel (cf c) src = true ->
+  (forall c', In c' cand -> 1 <= f_name (cf c')) ->
+  exists buf, In (c, buf) (group cand s) /\ In (fst src) buf.
+Proof.
+  induction cand as [|c0 r IH]; intros s c src Hn Hc Hs Hsel Hnm; [contradiction|].
+  simpl. inversion Hn; subst.
+  destruct Hc as [Hc|Hc].
+  - subst c0. assert (Hin : In (fst src) (map fst (filter (sel (cf c)) s))).
+    { apply in_map. apply filter_In. split; assumption. }
+    destruct (map fst (filter (sel (cf c)) s)) as [|b0 bs] eqn:E; [contradiction|].
+    exists (b0 :: bs). split; [left; reflexivity|exact Hin].
+  - assert (Hk : keep (cf c0) src = true).
+    { unfold keep. destruct (sel_name _ _ Hsel) as [H0|H0].
+      - rewrite H0. reflexivity.
+      - destruct (snd src =? f_name (cf c0)) eqn:E; [|apply orb_true_r].
+        exfalso. apply N.eqb_eq in E. apply H1. rewrite <- E, H0.
+        apply (in_map (fun c => f_name (cf c))) in Hc. exact Hc. }
+    destruct (IH (filter (keep (cf c0)) s) c src H2 Hc) as [buf [Hg Hb]]; auto.
+    + apply filter_In. split; assumption.
+    + intros c' Hc'. apply Hnm. right; exact Hc'.
+    + exists buf. split; [|exact Hb].
+      destruct (map fst (filter (sel (cf c0)) s)); [exact Hg|right; exact Hg].
+Qed.
+
+Lemma NoDup_map_filter : forall (A B : Type) (h : A -> B) (P : A -> bool) l,
+  NoDup (map h l) -> NoDup (map h (filter P l)).
+Proof.
+  induction l as [|a l IH]; intros H; [constructor|]. simpl in *. inversion H; subst.
+  destruct (P a); [|apply IH; exact H3]. simpl. constructor; [|apply IH; exact H3].
+  intros Hi. apply H2. apply in_map_iff in Hi. destruct Hi as [x [E Hx]]. apply filter_In in Hx.
+  apply in_map_iff. exists x. tauto.
+Qed.
+
+Lemma fetch_docs_step : forall guard g fs ids, ids <> [] ->
+  fetch_docs_gen guard g fs ids =
+  let rp := revers_pos ids 0 (PositiveMap.empty _) in
+  let '(s, lo, hi) := sort_ids ids in
+  let cand := filter (fun c => intersecting (cf c) lo hi) fs in
+  match fetch_all guard g (group cand s) with
+  | Ok dbf => FOk (readout (arrange rp dbf (PositiveMap.empty _)) 0 (length ids))
+  | Panic => FErr
+  | Fuel => FFuel
+  end.
+Proof. intros guard g fs [|s r] H; [congruence|reflexivity]. Qed.
+
+(* ------------------------------------------------------------------ FetchDocs *)
+Section FetchDocs.
+  Variable g : cfg.
+  Variable frs : list frac.
+  Variable B : N.
+  Hypothesis Hwf : corpus_wf B frs.
+  (* every fraction answers a list of IDs with what it stores under each (ProofsSealed / active_fetch_ok) *)
+  Hypothesis Hff : forall f ids, In f frs -> f_docs f <> [] -> Forall id_u64 ids ->
+    frac_fetch g (compile f) ids = Ok (map (lookup f) ids).
+
+  Lemma fetch_all_ok : forall gs,
+    (forall c buf, In (c, buf) gs -> exists f, In f frs /\ c = compile f /\ f_docs f <> [] /\ Forall id_u64 buf) ->
+    fetch_all true g gs = Ok (answers gs).
+  Proof.
+    induction gs as [|[c buf] r IH]; intros H; [reflexivity|].
+    simpl. destruct (H c buf (or_introl eq_refl)) as [f [Hf [Hc [Hd Hu]]]]. subst c.
+    fold frac_fetch. rewrite (Hff f buf Hf Hd Hu). rewrite IH.
+    - simpl. rewrite cf_compile. reflexivity.
+    - intros c' buf' Hi. apply H. right; exact Hi.
+  Qed.
+
+  Lemma expected_of_stored : forall f s d, In f frs -> hint_ok f s = true -> lookup f (fst s) = Some d ->
+    expected frs s = Some d.
+  Proof.
+    intros f s d Hf Hh Hl. unfold expected.
+    destruct (find (fun f0 => hint_ok f0 s && is_some (lookup f0 (fst s))) frs) as [f'|] eqn:E.
+    - apply find_some in E. destruct E as [Hf' Hp]. apply andb_true_iff in Hp. destruct Hp as [_ Hp].
+      destruct Hwf as [_ [_ Hu]]. assert (f' = f).
+      { apply (Hu f' f (fst s)); auto.
+        - destruct (lookup f' (fst s)); [discriminate|discriminate Hp].
+        - rewrite Hl; discriminate. }
+      subst; exact Hl.
+    - exfalso. pose proof (find_none _ _ E f Hf) as Hn. simpl in Hn. rewrite Hh, Hl in Hn. discriminate.
+  Qed.
+
+  Lemma expected_stored : forall s d, expected frs s = Some d ->
+    exists f, In f frs /\ hint_ok f s = true /\ lookup f (fst s) = Some d.
+  Proof.
+    intros s d H. unfold expected in H.
+    destruct (find (fun f0 => hint_ok f0 s && is_some (lookup f0 (fst s))) frs) as [f|] eqn:E; [|discriminate].
+    apply find_some in E. destruct E as [Hf Hp]. apply andb_true_iff in Hp. exists f. tauto.
+  Qed.
+
+  Lemma fetch_docs_ok : forall ids, ids <> [] -> NoDup (map fst ids) -> Forall (fun s => id_u64 (fst s)) ids ->
+    Forall (fun s => fst (fst s) <= B) ids ->
+    fetch_docs g (map compile frs) ids = FOk (map (expected frs) ids).
+  Proof.
+    intros ids Hne Hnd Hu HB. unfold fetch_docs. rewrite fetch_docs_step by exact Hne. cbv zeta.
+    destruct (sort_ids ids) as [[s lo] hi] eqn:Es.
+    destruct (sort_ids_spec _ _ _ _ Hne Es) as [Hperm [Hb [ymax [Hymax Ehi]]]].
+    assert (HhiB : hi <= B).
+    { rewrite Ehi. rewrite Forall_forall in HB. apply HB. apply (Permutation_in _ (Permutation_sym Hperm)). exact Hymax. }
+    assert (HinB : forall sk, In sk s -> fst (fst sk) <= B).
+    { intros sk Hsk. rewrite Forall_forall in HB. apply HB. apply (Permutation_in _ (Permutation_sym Hperm)). exact Hsk. }
+    set (rp := revers_pos ids 0 (PositiveMap.empty N)).
+    set (cand := filter (fun c => intersecting (cf c) lo hi) (map compile frs)).
+    set (gs := group cand s).
+    destruct Hwf as [Hfw [Hnames Huniq]].
+    assert (Hu2 : Forall (fun s => snd (fst s) <= max64) ids).
+    { eapply Forall_impl; [|exact Hu]. intros a [_ H]; exact H. }
+    assert (Hcand : forall c, In c cand -> exists f, In f frs /\ c = compile f /\ intersecting f lo hi = true).
+    { intros c Hc. apply filter_In in Hc. destruct Hc as [Hc Hi]. apply in_map_iff in Hc.
+      destruct Hc as [f [E Hf]]. subst c. rewrite cf_compile in Hi. exists f. auto. }
+    assert (Hrp : forall k sk, nth_error ids k = Some sk -> rp_get rp (fst sk) = N.of_nat k).
+    { intros k sk Hk. unfold rp. rewrite (rp_spec ids 0 _ k sk Hnd Hu2 Hk). lia. }
+    rewrite (fetch_all_ok gs).
+    2:{ intros c buf Hi. apply group_sound in Hi. destruct Hi as [Hc Hx].
+        destruct (Hcand c Hc) as [f [Hf [E Hint]]]. exists f. split; [exact Hf|]. split; [exact E|].
+        split; [intros Hd; unfold intersecting in Hint; rewrite Hd in Hint; discriminate|].
+        apply Forall_forall. intros x Hxb. destruct (Hx x Hxb) as [src [Hs [E2 _]]].
+        apply (Permutation_in _ (Permutation_sym Hperm)) in Hs. rewrite Forall_forall in Hu. subst x. apply Hu; exact Hs. }
+    f_equal. rewrite arrange_writes. apply readout_spec. intros k sk Hk.
+    rewrite N.add_0_l, fold_addw_find, PositiveMap.gempty.
+    (* A: every write to position k carries the expected document *)
+    assert (HA : forall d, In (N.of_nat k, d) (writes rp gs) -> expected frs sk = Some d).
+    { intros d Hi. apply in_writes in Hi. destruct Hi as [c [buf [x [Hg [Hx [Hl Hp]]]]]].
+      apply group_sound in Hg. destruct Hg as [Hc Hsrc]. destruct (Hsrc x Hx) as [src [Hs [E Hsel]]].
+      apply (Permutation_in _ (Permutation_sym Hperm)) in Hs.
+      destruct (In_nth_error _ _ Hs) as [j Hj].
+      pose proof (Hrp j src Hj) as Hr. rewrite E, <- Hp in Hr.
+      assert (j = k) by lia. subst j. rewrite Hk in Hj. inversion Hj; subst src.
+      destruct (Hcand c Hc) as [f [Hf [Ec _]]]. subst c. rewrite cf_compile in *.
+      apply (expected_of_stored f); auto.
+      - unfold hint_ok. destruct (sel_name _ _ Hsel) as [H0|H0]; rewrite H0; [reflexivity|].
+        rewrite N.eqb_refl. apply orb_true_r.
+      - rewrite E. exact Hl. }
+    destruct (expected frs sk) as [d|] eqn:Ee.
+    - (* B: the expected document is written to position k *)
+      rewrite (lw_some (N.of_nat k) (writes rp gs) d); [reflexivity| |].
+      2:{ intros d' Hi. apply HA in Hi. congruence. }
+      destruct (expected_stored _ _ Ee) as [f [Hf [Hh Hl]]].
+      assert (Hsk : In sk s) by (apply (Permutation_in _ Hperm); eapply nth_error_In; eauto).
+      rewrite Forall_forall in Hfw. destruct (Hfw f Hf) as [_ [Hn1 Hsound]].
+      assert (Hc : In (compile f) cand).
+      { apply filter_In. split; [apply in_map; exact Hf|]. rewrite cf_compile.
+        destruct (Hb sk Hsk). eapply Hsound; eauto. }
+      pose proof (HinB sk Hsk) as HskB.
+      assert (Hsel : sel (cf (compile f)) sk = true).
+      { rewrite cf_compile. unfold sel, contains.
+        assert (Hct : intersecting f (fst (fst sk)) (fst (fst sk)) = true)
+          by (eapply Hsound; eauto; apply N.le_refl).
+        unfold hint_ok in Hh. destruct (snd sk =? 0); [exact Hct|]. simpl in Hh. rewrite Hh, Hct. reflexivity. }
+      destruct (group_complete cand s (compile f) sk) as [buf [Hg Hx]]; auto.
+      + unfold cand. apply NoDup_map_filter. rewrite map_map.
+        erewrite map_ext; [exact Hnames|]. intros a; simpl. rewrite cf_compile. reflexivity.
+      + intros c' Hc'. destruct (Hcand c' Hc') as [f' [Hf' [E' _]]]. subst c'. rewrite cf_compile.
+        destruct (Hfw f' Hf') as [_ [H1 _]]. exact H1.
+      + apply in_writes. exists (compile f), buf, (fst sk). rewrite cf_compile.
+        repeat split; auto. symmetry. apply Hrp. exact Hk.
+    - rewrite lw_none; [reflexivity|]. intros d Hi. apply HA in Hi. discriminate.
+  Qed.
+End FetchDocs.
